@@ -9,10 +9,22 @@ macro_rules! props {
                 $( $id => $m::run(rep), )*
                 _ => return false,
             }
+            // coverage-guided campaigns over the same generators and oracles (thorough tier)
+            if rep.tier == Tier::Thorough && std::env::var("VERIF_NO_FUZZ").is_err() && !rep.has_violation() {
+                for (target, props) in crate::fuzz::TARGETS {
+                    if props.contains(&prop) {
+                        let (runs, max_len) = crate::fuzz::budget(target, prop);
+                        crate::fuzz::campaign(rep, target, runs, max_len);
+                    }
+                }
+            }
             true
         }
         /// Re-execute one saved case in strict mode. None = this replay kind is not known.
         pub fn replay(prop: &str, rep: &Report, case: &serde_json::Value) -> Option<Check> {
+            if let Some(r) = crate::fuzz::replay_bytes(prop, case) {
+                return Some(r);
+            }
             match prop {
                 $( $id => $m::replay(rep, case), )*
                 _ => None,
